@@ -71,6 +71,10 @@ func main() {
 	}
 
 	g := grammar.(*ast.Grammar)
+	if id := g.LexPart.UndefinedRegDef(); id != "" {
+		fmt.Printf("Error: undefined regular definition %s\n", id)
+		os.Exit(1)
+	}
 
 	gSymbols := symbols.NewSymbols(g)
 	if cfg.Verbose() {
